@@ -726,7 +726,7 @@ def c15_multi(ctx):
     ctx.model("c15-multi-live-mixed", dict(c, MaxSend=0), [], ["Completes"], spec="FairSpec")
     ctx.export_validate("c15x-multi-mixed", c, "multi", maxsched=80 if q else 1500)
     # life of the binding: End and a new start by any of the three
-    c = dict(Multi=True, PolA=2, PolB=2, PolC=2, Prelude=[QA], MaxSend=0 if q else 1, MaxFlight=2, MaxEnd=1, MaxQuery=0 if q else 1)
+    c = dict(Multi=True, PolA=2, PolB=2, PolC=2, Prelude=[QA], MaxSend=0, MaxFlight=2, MaxEnd=1, MaxQuery=0 if q else 1)
     ctx.model("c15-multi-life", c, ["BystanderIgnored", "DeliveredFromBound", "PairedWithBound", "OtherNeverSecure"], ["BoundStable"])
     ctx.export_validate("c15x-multi-life", c, "multi-life", maxsched=120 if q else 1500)
     # non-vacuity: version 2 has no instance tags, the same situation mixes the two clients up
